@@ -16,12 +16,19 @@ package trustpolicy
 //@ global invariant len(ValidationTypes) == 5 && ValidationTypes[0] == TypeIntegrity && ValidationTypes[1] == TypeAuthenticity && ValidationTypes[2] == TypeAuthenticTimestamp && ValidationTypes[3] == TypeExpiry && ValidationTypes[4] == TypeRevocation
 //@ global invariant len(ValidationActions) == 3 && ValidationActions[0] == ActionEnforce && ValidationActions[1] == ActionLog && ValidationActions[2] == ActionSkip
 
+// acceptance can only grow from strict to permissive to audit: every validation type that audit enforces is enforced by
+// permissive, and every type permissive enforces is enforced by strict (with the reject-only-on-enforced-failure
+// postconditions of processSignature this is the monotonicity clause of C02)
+//@ lemma[C02.level-monotone] forall(t, ValidationType, isType(t) ==> (LevelAudit.Enforcement[t] == ActionEnforce ==> LevelPermissive.Enforcement[t] == ActionEnforce) && (LevelPermissive.Enforcement[t] == ActionEnforce ==> LevelStrict.Enforcement[t] == ActionEnforce))
 //@ pure func presetOf(name string) *VerificationLevel = ite(name == "strict", LevelStrict, ite(name == "permissive", LevelPermissive, ite(name == "audit", LevelAudit, ite(name == "skip", LevelSkip, nil))))
 //@ pure func legalOverride(k ValidationType, a ValidationAction) bool = isType(k) && isAction(a) && k != TypeIntegrity && (a == ActionSkip ==> k == TypeRevocation)
 
+//@ pure func svOK(sv SignatureVerification) bool = presetOf(sv.VerificationLevel) != nil && forallkeys(k, sv.Override, sv.VerificationLevel != "skip" && legalOverride(k, sv.Override[k]))
+
 //@ func (*SignatureVerification).GetVerificationLevel
-//@ props C02 C09
+//@ props C01 C02 C09 C12
 //@ requires signatureVerification != nil
+//@ ensures[C01.level-total,C12.level-total] svOK(*signatureVerification) ==> result1 == nil
 //@ ensures result1 != nil ==> result == nil
 //@ ensures[C09.level-known]   result1 == nil ==> result != nil && presetOf(signatureVerification.VerificationLevel) != nil
 //@ ensures[C02.preset]        result1 == nil && len(signatureVerification.Override) == 0 ==> result == presetOf(signatureVerification.VerificationLevel)
